@@ -553,9 +553,13 @@ def run(pm, ctx):
         ok = bool(chk) and bool(drw)
         if ok:
             # the checking loop must complete before the drawing loop starts
+            # (the draws may sit in a loop statement or in a comprehension; the check in a loop over all components or in one vectorised test)
             cl = next((p for p in _parents(chk[0]) if isinstance(p, ast.For)), None)
-            dl = next((p for p in _parents(drw[0]) if isinstance(p, ast.For)), None)
-            ok = cl is not None and dl is not None and cl is not dl and cfg.dominates(cl, dl) and norm_src(cl.iter) in ("range(K)", "range(len(loc))")
+            dl = next((p for p in _parents(drw[0]) if isinstance(p, ast.For)), None) or drw[0]
+            if cl is None:
+                ok = cfg.dominates(chk[0], dl)
+            else:
+                ok = cl is not dl and cfg.dominates(cl, dl) and norm_src(cl.iter) in ("range(K)", "range(len(loc))") and not any(p is cl for p in _parents(dl))
         if ok:
             ctx.ok("C20-e", site)
         elif not chk and [s_ for s_, k in sem if k is None]:
@@ -583,6 +587,13 @@ def _guard_semantics(t):
     """meaning of a raising test of draw_gmm -> key tuple, or None when it is not understood"""
     from ..pm import canon_node
     t = canon_node(t)
+    if isinstance(t, ast.BoolOp) and isinstance(t.op, ast.And) and len(t.values) == 2:
+        # `d != 1 and <test>`: the nested form `if d != 1: if <test>: raise` written as one condition
+        for a_, b_ in ((t.values[0], t.values[1]), (t.values[1], t.values[0])):
+            if norm_src(a_) in ("d != 1", "1 != d"):
+                inner = _guard_semantics(b_)
+                if inner and inner[0] == "ne-or":
+                    return inner
     if isinstance(t, ast.Compare) and len(t.ops) == 1 and isinstance(t.ops[0], ast.NotEq):
         a, b = _size_key(t.left), _size_key(t.comparators[0])
         if a and b:
